@@ -308,16 +308,16 @@ def _rand_expr(rng, nodes, depth=0):
         pop = rng.choice([TARGET, TARGET + 1, TARGET + 2])
         return ["PP", E.plain(pop), [E.plain(v) for v in sorted(vs[:nc])], [E.plain(v) for v in sorted(vs[nc:])]]
     if r < 0.55:
-        # ranges among the variables of the summand (summing a joint over a variable it does not mention is the
-        # Sum.simplify defect of C10, outside this property)
+        # ranges mostly among the variables of the summand; sometimes any node (a joint summed over a variable it does
+        # not mention: the superset / partial-overlap branches of Sum.simplify, repaired by fix ed0f7b2)
         inner = _rand_expr(rng, nodes, depth + 1)
-        pool = sorted(FE.free_names(inner))
+        pool = sorted(FE.free_names(inner)) if rng.random() < 0.75 else sorted(nodes)
         if not pool:
             return inner
         return ["sum", [E.plain(v) for v in sorted(rng.sample(pool, rng.randint(1, min(2, len(pool)))))], inner]
     if r < 0.8:
         return ["prod"] + [_rand_expr(rng, nodes, depth + 1) for _ in range(rng.randint(2, 3))]
-    if r < 0.97:
+    if r < 0.95:
         return ["frac", _rand_expr(rng, nodes, depth + 1), _rand_expr(rng, nodes, depth + 1)]
     return "one"
 
